@@ -127,7 +127,26 @@ def build_driver(prop):
     return drv
 
 # ---------------------------------------------------------------- implementation
+def sync_workspace():
+    """harness/Cargo.toml lists exactly the crates that are complete (Cargo.toml + src/main.rs|lib.rs), so a
+    crate under construction cannot break the build of the others"""
+    members = []
+    for d in sorted(os.listdir(HARNESS)):
+        p = os.path.join(HARNESS, d)
+        if os.path.isfile(os.path.join(p, "Cargo.toml")) and (os.path.isfile(os.path.join(p, "src", "main.rs")) or os.path.isfile(os.path.join(p, "src", "lib.rs"))):
+            members.append(d)
+    body = ("[workspace]\nresolver = \"3\"\nmembers = [" + ", ".join('"%s"' % m for m in members) + "]\n\n"
+            "[workspace.package]\nedition = \"2024\"\nversion = \"0.0.0\"\n\n"
+            "[profile.dev]\ndebug = 0\nincremental = false\n\n[profile.release]\ndebug = 0\noverflow-checks = false\n")
+    path = os.path.join(HARNESS, "Cargo.toml")
+    try:
+        if open(path).read() == body: return
+    except OSError: pass
+    tmp = path + ".tmp%d" % os.getpid()
+    open(tmp, "w").write(body); os.replace(tmp, path)
+
 def build_harness(crate, release=False):
+    sync_workspace()
     cmd = ["cargo", "build", "--offline", "-q", "-p", crate] + (["--release"] if release else [])
     for attempt in range(2):
         rc, so, se = run(cmd, cwd=HARNESS, timeout=3000)
